@@ -19,16 +19,28 @@ from harness import gen
 
 RULE = ("a case = one tree instance (shape, labels, dict insertion order incl. orders only reachable by "
         "add_parent_to_root / renaming, child order) with all its queries: exhaustive over all ordered "
-        "rooted trees with <= 7 nodes x several instances each, random trees up to 40 nodes, and a few "
-        "real TTNS/TTNO instances (SandwichCache with real contractions, TDVP constructor). "
+        "rooted trees with <= 7 nodes (thorough: also all 429 trees with 8 nodes) x several instances each, "
+        "random trees up to 40 nodes, and a few real TTNS/TTNO instances (SandwichCache with real "
+        "contractions, TDVP constructor, the event sequences of the three TDVP sweeps and the tagged cache "
+        "reads of BUG / FixedBUG runs against the C05 / C09 machines). "
         "non-trivial = distinct instance with >= 3 nodes")
 PARTIAL = [
-    "the theorems are about the structural model on RTree; its equality with the line-by-line flat port "
-    "(dict order, parent pointers, fuel-bounded recursion) and with the code is checked by correspondence "
-    "(exhaustively up to 7 nodes, several dict/child orders each), not proved",
-    "get_leaves and nearest_neighbours (dict-order dependent) exist only in the flat model: correspondence + oracle",
-    "stronger structural statements of DESIGN section 5 (update path = post-order of the re-rooted tree, "
-    "next_hop_is_new_parent) have no theorem; every clause of the property statement has one",
+    "the theorems are stated about the structural model on RTree; its equality with the line-by-line flat port "
+    "(dict order, parent pointers, fuel-bounded recursion) is PROVED on every valid mirror in any dict order for "
+    "every routine that has a structural twin (toRTree_mirror, flat_*_eq_struct: root path, path_from_to, "
+    "linearise, subtree / leaf / size queries, distance_to_node with any centre, find_start_node_id, furthest "
+    "leaf, path_down_from_root, update path, cache keys, sweep segments); the tie flat port = code is the "
+    "correspondence (exhaustive up to 7 nodes, several dict/child orders each), which also re-checks flat = "
+    "structural on every run",
+    "get_leaves and nearest_neighbours (dict-order dependent, no structural twin) exist only in the flat model: "
+    "correspondence + oracle",
+    "init_cache_but_one is reduced to its keys in creation order (init_cache_keys); that its internal build order "
+    "reads only blocks already built is checked per run by the recording contract_any, not proved",
+    "the C05 discipline machine and the C09 environment machine (theorems Ptn.C05.Disc.*, Ptn.C09.Env.*) are tied "
+    "to the real TDVP / BUG classes by the event comparison of the 'real' cases only; a rank-adaptive BUG run that "
+    "raises (known finding F-C09) is skipped and tallied",
+    "the stronger statement 'update path = post-order of the re-rooted tree' has no theorem "
+    "(next_hop_is_new_parent is segs_point_to_last); every clause of the property statement has one",
 ]
 ASSUMPTIONS = ["Python dicts iterate in insertion order; max(d, key=d.get) returns the first maximal key",
                "node identifiers are distinct (enforced by TreeStructure.ensure_uniqueness)"]
